@@ -323,3 +323,66 @@ func collectSites(v reflect.Value, commit func(), path string, viaUser, root boo
 		}
 	}
 }
+
+// EqRewrite returns a rebuilt copy of v in which the sign of some zero float leaves is flipped
+// (+0 <-> -0): an equality-preserving rewrite. n is the number of flipped leaves.
+func (g *Gen) EqRewrite(v reflect.Value) (reflect.Value, int) {
+	c := g.DrawRebuild(v)
+	n := 0
+	var walk func(x reflect.Value, commit func())
+	walk = func(x reflect.Value, commit func()) {
+		x = Settable(x)
+		switch x.Kind() {
+		case reflect.Float32, reflect.Float64:
+			if x.Float() == 0 && rapid.Bool().Draw(g.T, "flipzero") {
+				x.SetFloat(flip(x.Float()))
+				n++
+				commit()
+			}
+		case reflect.Complex64, reflect.Complex128:
+			c := x.Complex()
+			re, im := real(c), imag(c)
+			ch := false
+			if re == 0 && rapid.Bool().Draw(g.T, "flipzero-re") {
+				re = flip(re)
+				ch = true
+			}
+			if im == 0 && rapid.Bool().Draw(g.T, "flipzero-im") {
+				im = flip(im)
+				ch = true
+			}
+			if ch {
+				x.SetComplex(complex(re, im))
+				n++
+				commit()
+			}
+		case reflect.Ptr:
+			if !x.IsNil() {
+				walk(x.Elem(), commit)
+			}
+		case reflect.Slice, reflect.Array:
+			if x.Kind() == reflect.Slice && x.IsNil() {
+				return
+			}
+			for i := 0; i < x.Len(); i++ {
+				walk(x.Index(i), commit)
+			}
+		case reflect.Map:
+			if x.IsNil() {
+				return
+			}
+			for _, k := range sortedKeys(x) {
+				k := k
+				tmp := reflect.New(x.Type().Elem()).Elem()
+				deepAssign(tmp, x.MapIndex(k))
+				walk(tmp, func() { x.SetMapIndex(k, tmp); commit() })
+			}
+		case reflect.Struct:
+			for i := 0; i < x.NumField(); i++ {
+				walk(x.Field(i), commit)
+			}
+		}
+	}
+	walk(c, func() {})
+	return c, n
+}
